@@ -43,6 +43,7 @@ func newEnv(masters, replicas, strategy int) (*env, *verdict) {
 		return nil, nil
 	}
 	w.AssignEven(w.Masters())
+	defer sim.ProductionRefreshRate()() // stable layout: see the function
 	px, err := sim.StartProxy(sim.ProxyOpts{Seeds: w.AllAddrs(), ReadStrategy: redispb.ReadStrategy(strategy)})
 	if err != nil {
 		w.Close()
